@@ -507,7 +507,7 @@ def c18_stack(tier):
     big = 3000000
     scenarios = []
     for order in ("mono", "rev", "zigzag", "rand"):
-        for what in ("drop", "clear", "partial", "full", "query"):
+        for what in ("drop", "clear", "partial", "full", "fullback", "query"):
             scenarios.append(("%s-%s" % (order, what), big))
     scenarios.append(("mono-setdrop", big))
     scenarios.append(("x-sweep", 200000 if tier == "quick" else 500000))
